@@ -110,6 +110,9 @@ func MakeMod(i int, variant string) Mod {
 type SignedLog struct {
 	Mods  []Mod
 	Log   *tlogx.Log
+	// DefaultExtra, if set, is appended as extension text lines to every tree head of this log that is
+	// requested without explicit extra lines (tlog.ParseTree ignores such lines; they are signed).
+	DefaultExtra string
 	mu    sync.Mutex
 	heads map[string][]byte
 }
@@ -169,6 +172,9 @@ func (l *SignedLog) HeadText(size int, extra string) string {
 // Head returns the tree head of the given size signed by who ("real", "attacker", "both"),
 // with optional extra text lines (forward-compatible extension of the tree note).
 func (l *SignedLog) Head(size int, who, extra string) []byte {
+	if extra == "" {
+		extra = l.DefaultExtra
+	}
 	key := fmt.Sprintf("%d|%s|%s", size, who, extra)
 	l.mu.Lock()
 	if b, ok := l.heads[key]; ok {
